@@ -22,6 +22,11 @@ class Term:
         return "<%s/%d #%d>" % (self.op, self.w, self.id)
 
 
+# RAW mode: only constant folding and structural extraction/concatenation bookkeeping; none of the
+# if-then-else normal form, don't-care pruning or equality pushing.  Used to let the solver decide the
+# un-normalised goal for a sample of cases, which cross-checks the rewriting rules.
+RAW = [False]
+
 _table = {}
 _next_id = [0]
 _ext_memo = {}
@@ -119,6 +124,8 @@ def ext(x, hi, lo):
             out.append(ext(p, b, a))
         out.reverse()
         return cat(out)
+    if op == "ite" and RAW[0]:
+        return _mk("ext", w, (x,), (hi, lo))
     if op == "ite":
         key = (x.id, hi, lo)
         r = _ext_memo.get(key)
@@ -273,6 +280,8 @@ def ite(c, a, b):
         return a if c.val else b
     if a is b:
         return a
+    if RAW[0]:
+        return _mk("ite", a.w, (c, a, b))
     if c.op == "not":
         return ite(c.args[0], b, a)
     if a.w > 1 or a.op == "ite" or b.op == "ite":
@@ -305,6 +314,8 @@ _assume_memo = {}
 def assume_deep(t, c, val, depth=2000):
     """simplify t knowing the 1-bit term c has value val, following if-then-else, concatenation
     and extraction structure only"""
+    if RAW[0]:
+        return t
     if c.op == "not":
         c, val = c.args[0], 1 - val
     if t.op not in ("ite", "cat", "ext"):
@@ -343,6 +354,8 @@ def assume_deep(t, c, val, depth=2000):
 
 def assume(t, c, val):
     """shallow simplification of the 1-bit term t knowing that the 1-bit term c has value val"""
+    if RAW[0]:
+        return t
     if t is c:
         return const(1, val)
     if t.op == "not" and t.args[0] is c:
@@ -364,6 +377,10 @@ def eq(a, b):
         return true()
     if a.op == "c" and b.op == "c":
         return true() if a.val == b.val else false()
+    if RAW[0]:
+        if a.id > b.id:
+            a, b = b, a
+        return _mk("eq", 1, (a, b))
     if b.op == "c" and a.op != "c":
         a, b = b, a
     # a may be const now
@@ -451,6 +468,8 @@ def ule(a, b):
 def restrict_bit(x, pos, val, memo=None):
     """Simplify x under the assumption that bit `pos` of x equals `val`: alternatives of an
     if-then-else whose bit is the opposite constant cannot be the ones selected and are dropped."""
+    if RAW[0]:
+        return x
     if memo is None:
         memo = {}
     key = (x.id, pos)
